@@ -48,11 +48,46 @@ type nodeItem struct {
 	Goal string `json:"goal"`
 }
 type nodeVerdict struct {
-	Ok  bool   `json:"ok"`
-	Err string `json:"err"`
+	Ok    bool   `json:"ok"`
+	Err   string `json:"err"`
+	Crash bool   `json:"-"` // node itself aborted on this item: no verdict
 }
 
+// nodeSyntax asks node for a verdict on every item.  Some inputs make node itself abort
+// (an assertion in node's error decoration, node_errors.cc GetErrorSource, seen with
+// generated programs): the batch is then bisected until the offending item is isolated,
+// which gets the verdict Crash (no oracle available; the case is skipped and counted).
 func nodeSyntax(items []nodeItem) ([]nodeVerdict, error) {
+	if len(items) == 0 {
+		return nil, nil
+	}
+	res, err := nodeSyntaxOnce(items)
+	if err == nil {
+		return res, nil
+	}
+	if _, isExit := err.(*nodeCrash); !isExit {
+		return nil, err
+	}
+	if len(items) == 1 {
+		return []nodeVerdict{{Ok: false, Err: "NODE-CRASH", Crash: true}}, nil
+	}
+	h := len(items) / 2
+	a, err := nodeSyntax(items[:h])
+	if err != nil {
+		return nil, err
+	}
+	b, err := nodeSyntax(items[h:])
+	if err != nil {
+		return nil, err
+	}
+	return append(a, b...), nil
+}
+
+type nodeCrash struct{ msg string }
+
+func (e *nodeCrash) Error() string { return e.msg }
+
+func nodeSyntaxOnce(items []nodeItem) ([]nodeVerdict, error) {
 	dir, err := os.MkdirTemp("", "verif-c13-")
 	if err != nil {
 		return nil, err
@@ -70,7 +105,10 @@ func nodeSyntax(items []nodeItem) ([]nodeVerdict, error) {
 	var stderr bytes.Buffer
 	cmd.Stderr = &stderr
 	if err := cmd.Run(); err != nil {
-		return nil, fmt.Errorf("node failed: %v: %s", err, stderr.String())
+		if _, ok := err.(*exec.ExitError); ok {
+			return nil, &nodeCrash{fmt.Sprintf("node failed: %v: %s", err, clip(stderr.String(), 400))}
+		}
+		return nil, fmt.Errorf("node could not be started: %v", err)
 	}
 	raw, err := os.ReadFile(outp)
 	if err != nil {
@@ -342,8 +380,8 @@ func glue(r *Rng, st *Stats, n int, tier string, printed []printedTree) {
 	for _, src := range boundaryCorpus {
 		add("boundary", src, variant{}, false)
 		add("boundary", src, variant{mw: true}, false)
-		add("boundary", "function f(){" + src + "}", variant{mw: r.Bool()}, false)
-		add("boundary", "function* f(){" + src + "}", variant{mw: r.Bool()}, false)
+		add("boundary", "function f(){"+src+"}", variant{mw: r.Bool()}, false)
+		add("boundary", "function* f(){"+src+"}", variant{mw: r.Bool()}, false)
 	}
 	// (4d) must-pass inputs of repaired findings
 	for _, src := range mustPassCorpus {
@@ -410,6 +448,7 @@ func glue(r *Rng, st *Stats, n int, tier string, printed []printedTree) {
 		return
 	}
 	ok := func(i int) bool { return i >= 0 && verdicts[i].Ok }
+	crashed := func(i int) bool { return i >= 0 && verdicts[i].Crash }
 	msg := func(i int) string {
 		if i < 0 {
 			return ""
@@ -425,6 +464,10 @@ func glue(r *Rng, st *Stats, n int, tier string, printed []printedTree) {
 
 	for _, c := range cases {
 		desc := map[string]string{"input": c.src, "options": c.v.String(), "kind": c.kind}
+		if crashed(c.srcS) || crashed(c.srcM) || crashed(c.outS) || crashed(c.outM) {
+			st.Histogram["skipped: node aborted on this input (no oracle verdict)"]++
+			continue
+		}
 		validS, validM := ok(c.srcS), ok(c.srcM)
 		st.Note("glue-"+c.kind, c.v.String()+c.src, c.err1 == "")
 
@@ -525,7 +568,7 @@ func glue(r *Rng, st *Stats, n int, tier string, printed []printedTree) {
 		}
 		if !validS && !validM && !ok(c.outS) && !ok(c.outM) {
 			// esbuild accepted something node rejects in both goals: the output must still be valid
-			if why := knownLenient(c, msg(c.srcS), msg(c.srcM), msg(firstAsked(c))); why != "" {
+			if why := knownLenient(c, msg(c.srcS), msg(c.srcM), msg(c.outS)+" | "+msg(c.outM)); why != "" {
 				st.Histogram["excluded: "+why]++
 			} else {
 				d := map[string]string{"input": c.src, "options": c.v.String(), "kind": c.kind, "out1": c.out1, "node_on_input": msg(c.srcS)}
